@@ -15,6 +15,20 @@ CHECKS = {
        "float32 sums are exact); rasterio.fill.fillnodata is a parameter of the model (its output is fed to the model); "
        "numpy std/percentile enter through the block normalisation pair (n0, n1) taken from the code.",
   tech="Lean 4 proof (field_simp/ring/linarith over Q, list induction) + bit-exact differential correspondence run", ref='7 C01'),
+ 'C02': dict(
+  text="Proof (Lean 4) over exact rationals: if ref = a x + b on the jointly valid pixels of a window, gain-offset OLS returns "
+       "exactly (a, b), gain returns a (b = 0), gain-blk-offset returns (a, b) under the std/percentile hypotheses, R2 = 1; a "
+       "normalised weighted-mean resampler keeps constants and commutes with affine maps; hence the up-sampled parameters are "
+       "(a, b) and the corrected value at a source pixel is a src + b at its own location (10 theorems). Tied to the code by real "
+       "fusions of pairs constructed with the model's exact `average` resampler (ratios 1..4 incl. 5:2, 20:9, sub-pixel offsets, "
+       "nodata borders/holes, NaN / numeric / internal-mask nodata, 1-3 bands with band-specific (a,b), three models, 1..64 blocks, "
+       "threads 1/2/4, both processing grids): |corrected - (a src + b)| <= 2e-4 range at every valid source pixel, "
+       "RasterCompare RMSE ~ 0; and by a direct differential run of RasterArray.reproject against the resampling model.",
+  note="GDAL warp = normalised weighted mean (average: overlap areas; nearest/bilinear: centre rule) is modelled and measured, "
+       "not proved. Degenerate windows (single valid pixel / constant source under gain-offset) are excluded by hypothesis "
+       "(partial). In decimal geometry value oracles avoid exactly coinciding pixel edges (GDAL float noise changes validity "
+       "there); the dyadic family covers them exactly.",
+  tech="Lean 4 proof (algebra over Q, list induction) + constructed-oracle differential runs", ref='7 C02'),
  'C06': dict(
   text="Proof (Lean 4): for all origins, pixel sizes, image sizes, block lengths s>0 and overlaps v>=0 the processing-grid "
        "output windows partition the processing window, the rounded other-grid output windows partition [round A, round B) "
